@@ -31,6 +31,9 @@ type In struct {
 	B1      bool     `json:"b1,omitempty"`
 	B2      bool     `json:"b2,omitempty"`
 	Garbage bool     `json:"garbage,omitempty"` // recycled InSitu buffers filled with garbage
+	// InPlace (chol ldl fpd): InSitu.L is the input matrix itself (D, S, T recycled garbage);
+	// the printed case still carries the ORIGINAL input (the harness works on a copy)
+	InPlace bool   `json:"inplace,omitempty"`
 	Family  string   `json:"family,omitempty"`
 }
 
@@ -101,8 +104,12 @@ func RunDirect(in *In, path string) (out *Out) {
 		if in.Kind == "fpd" {
 			args = append(args, cholesky.ForcePD{Value: true})
 		}
-		if in.Garbage {
+		if in.Garbage || in.InPlace {
 			is := &cholesky.InSitu{L: garbageMat(path, n, n), S: MkScal(path, 3.5), T: MkScal(path, -2.5)}
+			if in.InPlace {
+				// factorise in place: every entry of the lower triangle is read before it is overwritten
+				is.L = M
+			}
 			if in.Kind != "chol" {
 				is.D = garbageMat(path, n, n)
 			}
@@ -269,6 +276,9 @@ func CoqCase(in *In, o *Out, fast bool) string {
 func (in *In) Key() string {
 	var sb strings.Builder
 	fmt.Fprintf(&sb, "%s|%d|%d|%d|%v|%v|%v|", in.Kind, in.I, in.K, in.Sub, in.B1, in.B2, in.Garbage)
+	if in.InPlace { // appended only when set: keys of old inputs are unchanged
+		sb.WriteString("inplace|")
+	}
 	if in.M != nil {
 		fmt.Fprintf(&sb, "%dx%d|%s", in.M.R, in.M.C, strings.Join(HexList(in.M.V), ","))
 	}
